@@ -2,6 +2,7 @@
 from .. import common as C
 
 LEAN_MODULES = ["ZvtVerif.Properties.C16"]
+NEEDS_RELEASE = True
 TRANSLATED = set()      # translated tables this property consumes (a translator problem elsewhere does not break its tie)
 ASSUMPTIONS = ["usize is 64 bit", "Fixed<N> exercised for N = 0..17 (const generic instantiations compiled into the harness)"]
 
@@ -36,8 +37,9 @@ def run(ctx, out):
         for ln in range(0, N + 1):
             ops.append(f"len.ser fixed:{N} {ln}")
     impl, model = ctx.pair(ops)
-    from ..flow import history_check
+    from ..flow import history_check, release_check
     history_check(ctx, out, ops, impl, "length prefix")
+    release_check(ctx, out, ops, impl, "length prefix")
     out.compare("len.ser", ops, impl, model)
     out.evaluations += len(ops)
     # oracle on the implementation alone: prefix = reference prefix
@@ -128,6 +130,7 @@ def run(ctx, out):
     out.compare("len.de", ops3, impl3, model3)
     # parsing is a pure function: the same prefixes again in look-alike order (05 directly before 00 05, 81 80 before 00 81 80, …)
     history_check(ctx, out, de_ops + ops3, impl2 + impl3, "length prefix parser")
+    release_check(ctx, out, de_ops + ops3, impl2 + impl3, "length prefix parser")
     out.evaluations += len(ops3)
     for o, r in zip(ops3, impl3):
         kind = r.split()[0] + (" " + r.split()[1] if r.startswith("err") else "")
